@@ -259,6 +259,18 @@ pub fn lit_sentinels() -> Vec<Program> {
             }
         }
     }
+    // RWC / W+RWC / handed-over store buffering with every fence strength and with the fence
+    // also acting as the acquire (release) of a relaxed access next to it
+    for &f2 in &MO::FENCES {
+        for &f3 in &[Sc, AcqRel] {
+            for &l in &MO::LOADS {
+                for &st_o in &[Rlx, Rel] {
+                    out.push(mk("S-W+RWC-var", 3, vec![vec![st(0, 1, Rlx), st(2, 1, st_o)], vec![ld(2, l), fence(f2), ld(1, Rlx)], vec![st(1, 1, Rlx), fence(f3), ld(0, Rlx)]]));
+                }
+                out.push(mk("S-RWC-var", 2, vec![vec![st(0, 1, Rlx)], vec![ld(0, l), fence(f2), ld(1, Rlx)], vec![st(1, 1, Rlx), fence(f3), ld(0, Rlx)]]));
+            }
+        }
+    }
     // S28: history ring overflow (9 stores to one location || 2 loads); soundness only
     out.push(mk("S28-overflow", 1, vec![(1..=9).map(|v| st(0, v, Rlx)).collect(), vec![ld(0, Rlx), ld(0, Rlx)]]));
     out
@@ -1492,6 +1504,27 @@ pub fn spin_family(nat: usize, nwriters: usize, maxlen: usize, full: bool) -> Ve
         }
         let mut wants: Vec<u64> = stored0.clone();
         wants.push(77); // never stored: the loop can never exit
+        // two loops in a row on two write-once atomics (still one thread spinning at a time)
+        if nat > 1 {
+            let stored1: Vec<u64> = ws.iter().flatten().filter_map(|op| if let K::Store { a: 1, v, .. } = op.k { Some(v) } else { None }).collect();
+            if stored0.len() == 1 && stored1.len() == 1 {
+                for &ao in ld_os {
+                    for &bo in ld_os {
+                        for order in 0..2 {
+                            let first = K::Await { a: 0, mo: ao, want: stored0[0] };
+                            let second = K::Await { a: 1, mo: bo, want: stored1[0] };
+                            let w: Vec<Op> = if order == 0 { vec![first.into(), second.into()] } else { vec![second.into(), first.into()] };
+                            let mut ch = ws.clone();
+                            ch.push(w);
+                            let p = with_main("SPIN2", atomics(nat), vec![], ch, vec![], (0..nat).map(|a| ld(a, Rlx)).collect());
+                            if seen.insert(p.text()) {
+                                out.push(p);
+                            }
+                        }
+                    }
+                }
+            }
+        }
         for &want in &wants {
             for &ao in ld_os {
                 for pre in &side {
